@@ -72,7 +72,15 @@ public:
 
 	~CCsvWriteObjectScope()
 	{
-		mCsvWriter->NextLine();
+		try
+		{
+			mCsvWriter->NextLine();
+		}
+		catch (...)
+		{
+			// Destructor must not throw, the error (e.g. mismatch of number of values) will be reported at the end of saving
+			GetContext().SetDeferredException(std::current_exception());
+		}
 	}
 
 	/// <summary>
